@@ -539,9 +539,11 @@ impl Container for DynamicContainer {
             lru.write().touch(&ekey_9);
         }
 
-        // Persist the updated index to disk
+        // Persist the updated index to disk. `save_all` rewrites every index file through
+        // a fixed temporary name, so it needs the index exclusively: under the read lock two
+        // concurrent callers share that temporary file and one of them fails in `rename`.
         {
-            let index = self.index.read();
+            let index = self.index.write();
             index.save_all()?;
         }
 
@@ -565,8 +567,8 @@ impl Container for DynamicContainer {
 
         if removed {
             debug!("removed key {} from index", hex::encode(&key[..9]));
-            // Persist the updated index
-            let index = self.index.read();
+            // Persist the updated index (exclusively, see `write`)
+            let index = self.index.write();
             index.save_all()?;
         }
 
